@@ -217,6 +217,31 @@ func checkCase(c micCase) evid.Outcome {
 				map[bool]string{true: "is unchanged, so it must be accepted", false: "changes, so it must be rejected"}[exp], up, c.V11, c.F.ACK, c.F.FCnt, d.F.FCnt, c.ConfFCnt, d.ConfFCnt)
 		}
 	}
+	// the validator of the opposite direction (one shared key, as with a 1.0 NwkSKey) must answer by the specification MIC
+	// for ITS direction: Dir is an authenticated input, it is not taken from the frame's MType
+	{
+		d := c
+		d.FNwk = c.SNwk
+		own := refMIC(&d)
+		pp := params(&d)
+		pp.Uplink = !up
+		exp := ref.DataMIC(pp, d.F.Msg()) == own
+		p, err := gen.ToLib(&d.F, true)
+		if err == nil {
+			p.MIC = lorawan.MIC(own)
+			var got bool
+			var verr error
+			if up {
+				got, verr = p.ValidateDownlinkDataMIC(ver(d.V11), d.ConfFCnt, gen.LibKey(toKey(d.SNwk)))
+			} else {
+				got, verr = p.ValidateUplinkDataMIC(ver(d.V11), d.ConfFCnt, d.TxDR, d.TxCh, gen.LibKey(toKey(d.FNwk)), gen.LibKey(toKey(d.SNwk)))
+			}
+			if verr == nil && got != exp {
+				return evid.Fail("frame with MType %d carrying its own MIC %x, validated by the validator of the opposite direction with the same key: answers %v, the specification MIC for that direction %s", d.F.MType, own[:], got,
+					map[bool]string{true: "is the same (must be accepted)", false: "differs (must be rejected)"}[exp])
+			}
+		}
+	}
 	nt := len(msg) > 16 && (c.F.FCnt >= 1<<16 || (c.F.ACK && c.ConfFCnt != 0))
 	cls := fmt.Sprintf("up=%v/v11=%v/ack=%v", up, c.V11, c.F.ACK)
 	return evid.Outcome{NonTrivial: nt, Class: cls}
@@ -229,6 +254,6 @@ func TestProp(t *testing.T) {
 	r := evid.Begin(t, "C02")
 	defer r.Finish()
 	evid.Rapid(r, t, "data-mic",
-		"rapid: data frames of the four data MTypes (MHDR|MACPayload <= 255 bytes) x random keys (FNwkSIntKey = or != SNwkSIntKey) x MAC version x boundary-biased 32-bit FCnt and ConfFCnt x txDR x txCh; oracle: B0/B1 + own AES-CMAC (RFC 4493 vectors self-checked) over the wire model's serialisation. Checks: Set == reference; Validate true on it, false on single-bit MIC changes; ValidateUplinkDataMICF <=> cmacF half; 4-10 single-input perturbations per case (keys, any FCnt bit, +2^16, DevAddr, confirmed/unconfirmed, direction, payload byte, FPort, flags, ACK, ConfFCnt low/high bits, +k*2^16, txDR, txCh, version) where validation of the original MIC must answer exactly whether the reference MIC is unchanged. Non-trivial: message longer than one AES block and (FCnt >= 2^16 or ACK with ConfFCnt != 0).",
+		"rapid: data frames of the four data MTypes (MHDR|MACPayload <= 255 bytes) x random keys (FNwkSIntKey = or != SNwkSIntKey) x MAC version x boundary-biased 32-bit FCnt and ConfFCnt x txDR x txCh; oracle: B0/B1 + own AES-CMAC (RFC 4493 vectors self-checked) over the wire model's serialisation. Checks: Set == reference; Validate true on it, false on single-bit MIC changes; ValidateUplinkDataMICF <=> cmacF half; 4-10 single-input perturbations per case (keys, any FCnt bit, +2^16, DevAddr, confirmed/unconfirmed, direction, payload byte, FPort, flags, ACK, ConfFCnt low/high bits, +k*2^16, txDR, txCh, version) and the opposite direction's validator with a shared key, where validation of the original MIC must answer exactly whether the reference MIC is unchanged. Non-trivial: message longer than one AES block and (FCnt >= 2^16 or ACK with ConfFCnt != 0).",
 		60000, 3000000, genCase, checkCase)
 }
